@@ -202,3 +202,41 @@ def histLen (h : Option (Hist α)) : Nat := match h with | none => 0 | some h =>
 end hist
 
 end KawinV.Strength
+
+/-
+ADDITIONS (round 5): the multi-phase superposition of precStrength (Strength.py 582-607) with the exponent of
+the power sum and the exponent of the root as SEPARATE parameters, so that the rule "the same exponent for the
+sum and for the root in every branch" is a statement about the model (Props/C18: `precRowWith_code`,
+`precRow_eq_superpose`) and a variant that mixes them up can be run through the same definitions (witness
+theorems `superposeWith_mismatch_below_strongest`, `precRowWith_mismatch_below_strongest`).
+`maxOf` is the strongest phase of a row (`np.amax` over the phase axis, 0 for no phase).
+-/
+namespace KawinV.Strength
+
+section superWith
+variable {α : Type} [Add α] [Zero α] [Div α] [One α]
+
+/-- `np.power(np.sum(np.power(xs, p), axis=0), 1/q)` for one column; kawin's code has `q = p` everywhere -/
+def superposeWith (pw : α → α → α) (p q : α) (xs : List α) : α :=
+  pw ((xs.map (fun a => pw a p)).sum) (1 / q)
+
+/-- the strongest part: `max(0, max xs)` -/
+def maxOf [LT α] [DecidableLT α] (xs : List α) : α := xs.foldr (fun a m => if m < a then a else m) 0
+
+/-- number of weak-dominated phases of a row as precStrength counts them (`compare[~isfinite(strength)] = 0`) -/
+def weakCount (fin : α → Bool) (phases : List (Combined α)) : Nat :=
+  (phases.filter (fun c => fin c.strength && c.weakDominant)).length
+
+/-- "same regime": no phase or every phase of the row is weak-dominated (`indices` in precStrength) -/
+def sameRegime (fin : α → Bool) (phases : List (Combined α)) : Bool :=
+  decide (weakCount fin phases = 0 ∨ weakCount fin phases = phases.length)
+
+/-- precStrength for one row with (sum exponent, root exponent) of the same-regime branch and of the mixed
+branch as parameters.  The code is `precRowWith fin pw nSame nSame nMixed nMixed`. -/
+def precRowWith (fin : α → Bool) (pw : α → α → α) (sS rS sM rM : α) (phases : List (Combined α)) : α :=
+  let ps := phases.map (fun c => clean fin c.strength)
+  if sameRegime fin phases then superposeWith pw sS rS ps else superposeWith pw sM rM ps
+
+end superWith
+
+end KawinV.Strength
